@@ -231,6 +231,10 @@ def run(tier):
     # clause as C08's; a block scalar that falls through the style test is typed from its content)
     from . import C08 as _C08
     _C08.quoted_is_string(rep, F, "non-plain-style-is-text")
+    # ... also when resolution is deferred: resolving the tree afterwards reaches every scalar (C19's clause: no recursive resolution call
+    # is skipped after an unresolvable neighbour)
+    from . import C19 as _C19
+    _C19.recursive_resolution(rep, F)
     return rep
 
 
